@@ -110,6 +110,21 @@ func (rc *runCtx) cmpRead(kind, arg string) *CmpResult {
 		case "info":
 			return jsonOf(p.GetProcessInfo(arg))
 		case "names":
+			if p == app.IProject(rc.proj) {
+				// the client derives the names from GET /processes: the corresponding direct
+				// call is GetProcessesState (which, unlike the runner's own name list, fails
+				// while a concurrent scale request is renaming the replicas)
+				st, err := p.GetProcessesState()
+				if err != nil {
+					return "", err.Error()
+				}
+				names := make([]string, 0, len(st.States))
+				for _, x := range st.States {
+					names = append(names, x.Name)
+				}
+				sort.Strings(names)
+				return jsonOf(names, nil)
+			}
 			return jsonOf(p.GetLexicographicProcessNames())
 		case "ports":
 			return jsonOf(p.GetProcessPorts(arg))
